@@ -1654,9 +1654,14 @@ public:
       return;
     }
 
-    linear_expression_t e(x);
-    term_id_t tx(build_linexpr(e));
-    rebind_var(y, tx);
+    // y must be a copy of x that is NOT related to x (x may be a
+    // summarized variable): binding y to the term of x would state y == x.
+    // y gets a fresh term with a copy of what the underlying domain knows
+    // about the term of x.
+    term_id_t tx(term_of_var(x));
+    term_id_t ty(_ttbl.fresh_var());
+    _impl.expand(domvar_of_term(tx), domvar_of_term(ty));
+    rebind_var(y, ty);
 
     check_terms(__LINE__);
   }
